@@ -352,24 +352,26 @@ def vector_case():
         return arr, pick, mode, orient
     return st.builds(build, base, st.sampled_from([0, 0, 1, -1]),
                      st.integers(0, 1), st.integers(0, 1),
-                     st.integers(0, 3), st.integers(0, 30),
+                     st.integers(0, 3), st.integers(0, 60),
                      st.sampled_from(['col', 'row']))
 
 
 def lookup_value(arr, pick):
     """value from the array, a near miss, or another type"""
     real = [x for x in arr if klass(x) in RANK]
-    if pick < 12 and real:
+    if pick < 20 and real:
         return real[pick % len(real)]
-    if pick < 18 and real:
+    if pick < 38 and real:
         x = real[pick % len(real)]
         if klass(x) == 'number':
             return x + (0.5 if pick % 2 else -0.5)
         if klass(x) == 'text':
-            return [x.upper(), x + 'a', x[:1] + '*', '?' + x[1:]][pick % 4]
+            return [x.upper(), x + 'a', x[:1] + '*', '?' + x[1:],
+                    x[:1] + '*?', x + '*?', x[:1] + '?*', '*' + '?' * len(x),
+                    '*?' + x[1:]][(pick - 20) % 9]
         return not x
     return [0, 1.5, 'zz', '', 'A', True, False, 1000, -1000, 'a*', '1',
-            1][pick % 12]
+            1, 'a*?', '*??', 'a*?c', '*?*'][(pick - 38) % 16]
 
 
 def table_case():
@@ -384,7 +386,7 @@ def table_case():
             table.append(row)
         return table, pick, bool(approx), idx - 1
     return st.builds(build, st.lists(pool(), min_size=2, max_size=6),
-                     st.integers(1, 4), st.integers(0, 1), st.integers(0, 30),
+                     st.integers(1, 4), st.integers(0, 1), st.integers(0, 60),
                      st.integers(0, 6),
                      st.lists(st.one_of(pool(), st.none(),
                                         st.sampled_from(['#DIV/0!'])),
